@@ -197,6 +197,7 @@ def targets(ctx):
 
     return [
         __import__("vf.props._prog", fromlist=["target"]).target("C09", c),
+        __import__("vf.props._inherit", fromlist=["target"]).target(c),
         Target("corpus_values", ev, poison=_poison_fn, strategy=strat(), quick=700, thorough=8000, time_quick=70),
         Target("length_prefix_boundaries", ev, poison=_poison_fn, strategy=big(), quick=150, thorough=400),
         _seq.target("C09"),
